@@ -1073,6 +1073,14 @@ func (s *sim) deliver(k int, keep bool) {
 }
 
 func (s *sim) deliverMsg(m pb.Message) {
+	if s.blocked[[2]uint64{m.From, m.To}] {
+		// in flight when the link went down
+		if m.Type == pb.InstallSnapshot {
+			s.statusQ = append(s.statusQ, snapStatus{to: m.From, about: m.To, reject: true})
+		}
+		s.tr("  lost %s %d->%d (link down)", m.Type, m.From, m.To)
+		return
+	}
 	r, ok := s.reps[m.To]
 	if !ok || !r.running() {
 		if m.Type == pb.InstallSnapshot {
